@@ -527,7 +527,8 @@ def describe_assert(eng, e):
             return ".".join(v[2])
         if v[0] == "int":
             return str(v[1])
-        if contains_term(v, lambda x: x[0] == "pure" and x[1].endswith("UnicodeWidthChar>::width")):
+        if contains_term(v, lambda x: len(x) > 1 and x[0] == "pure" and isinstance(x[1], str)
+                         and x[1].endswith("UnicodeWidthChar>::width")):
             return "width"
         if v[0] == "pure":
             return v[1].rsplit("::", 1)[-1]
